@@ -112,6 +112,10 @@ func evalC19(cs *c19Case) (sig, msg string, out c19Outcome) {
 			out.Status = "base-rejected"
 			return "", "", out
 		}
+		// History: the same process has just parsed a patch with the same
+		// text three lines further down, under another name. What a
+		// diagnostic says is a function of the patch it is about.
+		run.ParseOnly("decoy-"+cs.Name, append([]byte("# decoy\n# decoy\n# decoy\n"), cs.Patch...))
 		_, r := run.ParseOnly(cs.Name, cs.Patch)
 		if r.Failed() {
 			out.Status = "foreign" // crash or hang: property C08
